@@ -850,3 +850,62 @@ func InstrDominates(a, b ssa.Instruction) bool {
 	}
 	return ba.Dominates(bb)
 }
+
+// IsParamFuncCallThrough: like IsParamFuncCall, but also accepts a call of a
+// function-typed FIELD of a parameter or captured parameter (params.Ask).
+func IsParamFuncCallThrough(c *ssa.CallCommon) bool {
+	if IsParamFuncCall(c) {
+		return true
+	}
+	if c.IsInvoke() {
+		return false
+	}
+	v := Through(c.Value)
+	f, base := FieldRead(v)
+	if f == nil {
+		return false
+	}
+	if _, ok := f.Type().Underlying().(*types.Signature); !ok {
+		return false
+	}
+	base = Through(base)
+	for i := 0; i < 4; i++ {
+		switch b := base.(type) {
+		case *ssa.Parameter:
+			return true
+		case *ssa.FreeVar:
+			base = FreeVarBinding(b)
+		case *ssa.Alloc:
+			st := cellStores(b)
+			if len(st) >= 1 {
+				if _, ok := st[0].Val.(*ssa.Parameter); ok {
+					return true
+				}
+			}
+			return false
+		default:
+			return false
+		}
+	}
+	return false
+}
+
+// DerivesFromDirect is DerivesFrom that treats call results as opaque: the
+// walk tests a call value but does not descend into its arguments.
+func DerivesFromDirect(v ssa.Value, pred func(ssa.Value) bool) bool {
+	found := false
+	BackSlice(v, func(x ssa.Value) bool {
+		if found {
+			return false
+		}
+		if pred(x) {
+			found = true
+			return false
+		}
+		if _, isCall := x.(*ssa.Call); isCall {
+			return false
+		}
+		return true
+	})
+	return found
+}
